@@ -42,7 +42,7 @@ ASSUMPTIONS = [
     'percent-decoding is applied exactly once; no symlinks in the document root; GET over HTTP/1.1 only',
     'in direct mode an HTTPException raised by the handler counts as its status code, any other exception as a 5xx',
 ]
-REQUIRED = ['request_by_an_http10_client', 'range_header_of_an_http10_request_answered_with_the_whole_file', 'reference_selfcheck', 'audit_hook_live', 'audit_open_inside_root', 'audit_listdir_inside_root',
+REQUIRED = ['request_left_to_the_application_next_to_static', 'static_answered_with_another_request_handler_behind_it', 'request_by_an_http10_client', 'range_header_of_an_http10_request_answered_with_the_whole_file', 'reference_selfcheck', 'audit_hook_live', 'audit_open_inside_root', 'audit_listdir_inside_root',
             'http_requests', 'direct_requests', 'served_file', 'served_default_index', 'served_listing',
             'guard_redirect', 'escape_refused_direct', 'escape_refused_http', 'reenter_through_root_name',
             'encoded_dotdot', 'double_encoded_dotdot', 'backslash_segment', 'sibling_target', 'parent_secret_target',
@@ -53,6 +53,7 @@ REQUIRED = ['request_by_an_http10_client', 'range_header_of_an_http10_request_an
 REQUIRED_OBLIGATIONS = ['MARKER', 'AUDIT', 'NO_5XX', 'ANSWERED', 'CONTENT', 'RANGE', 'CLEN']
 WORKER_TIMEOUT = {'quick': 300, 'thorough': 1500}
 
+COMPANION_BODY = b'C16 companion application: dynamic page for this path\n'
 K_CONTAIN = 'static.containment-prefix-of-parent'
 K_MOUNT = 'static.mount-prefix-no-boundary'
 K_CLAMP = 'ranges.unclamped-last-byte'
@@ -217,8 +218,8 @@ class World:
             self.trees[key] = {'top': top, 'root': root, 'lay': lay}
         return self.trees[key]
 
-    def env(self, fe, li, neutral, mount, dirlisting, defaults='std'):
-        key = (fe, li, neutral, mount, dirlisting, defaults)
+    def env(self, fe, li, neutral, mount, dirlisting, defaults='std', companion=False):
+        key = (fe, li, neutral, mount, dirlisting, defaults, companion)
         e = self.envs.get(key)
         if e is None or e['uses'] > 400:
             c = self.c
@@ -229,6 +230,18 @@ class World:
             # defaults: the shipped pair of default documents, or none at all (a pure file browser: () or [])
             dflt = DEFAULTS if defaults == 'std' else (() if defaults == 'tuple' else [])
             st = c['Static'](mount, docroot=t['root'], defaults=dflt, dirlisting=dirlisting).register(w)
+            if companion:
+                # the application next to Static: a lower-priority handler that answers every path (a catch-all controller / a gateway
+                # mounted at /).  It gets whatever Static did not answer - and nothing Static did answer
+                from circuits import BaseComponent as _BC, handler as _h
+
+                class Companion(_BC):
+                    channel = 'web'
+
+                    @_h('request', priority=0.05)
+                    def _v_request(self, event, req, res):
+                        return COMPANION_BODY
+                Companion().register(w)
             if neutral:
                 # twin of K_CONTAIN: the same root spelt "<root>/." - dirname() of it is the root itself, so
                 # the containment test of this tree is made against the root instead of its parent
@@ -239,8 +252,8 @@ class World:
         return e['w']
 
     # -- one request -----------------------------------------------------------------------------
-    def request(self, fe, li, neutral, mount, dirlisting, path, range_header, before=(), defaults='std', proto='1.1'):
-        w = self.env(fe, li, neutral, mount, dirlisting, defaults)
+    def request(self, fe, li, neutral, mount, dirlisting, path, range_header, before=(), defaults='std', proto='1.1', companion=False):
+        w = self.env(fe, li, neutral, mount, dirlisting, defaults, companion)
         w.take()
         del w.exceptions[:]
         o = Obs()
@@ -485,7 +498,8 @@ def evaluate(world, case, neutral=False):
     if case['family'] == 'range':
         header = case['prefix'] + case['sep'].join(case['specs']) if case['specs'] is not None else None
     before = [(('' if mount is None else mount.rstrip('/')) + '/' + rel, rng_h) for rel, rng_h in case.get('before', ())] if case['fe'] == 'http' else []
-    o = world.request(case['fe'], case['layout'], neutral, mount, case.get('dirlisting', False), path, header, before, case.get('defaults', 'std'), case.get('proto', '1.1'))
+    o = world.request(case['fe'], case['layout'], neutral, mount, case.get('dirlisting', False), path, header, before, case.get('defaults', 'std'), case.get('proto', '1.1'),
+                      companion=bool(case.get('companion')) and case['fe'] == 'http')
     if case.get('defaults', 'std') != 'std':
         counters['static_without_default_documents'] = 1
     info['status'] = o.status
@@ -510,8 +524,13 @@ def evaluate(world, case, neutral=False):
             counters['escape_refused_' + case['fe']] = 1
         if case['fe'] == 'http' and o.status in (301, 302, 307, 308):
             counters['guard_redirect'] = 1
-        if 200 <= o.status < 300:
+        if o.status == 200 and case.get('companion') and case['fe'] == 'http' and o.body == COMPANION_BODY:
+            # Static left the request to the application next to it (the counterpart of a 404 without one): nothing of the tree was served
+            counters['request_left_to_the_application_next_to_static'] = 1
+        elif 200 <= o.status < 300:
             evaluated.append('CONTENT')
+            if case.get('companion') and case['fe'] == 'http':
+                counters['static_answered_with_another_request_handler_behind_it'] = 1
             v = content_verdict(path, mount, case.get('dirlisting', False), tree, o.body, case['fe'], case.get('defaults', 'std')) if o.status == 200 else None
             if v is None:
                 probs.append(('CONTENT', {
@@ -794,6 +813,9 @@ def corpus():
                 for mount in (None, '/static'):
                     for t in plain + hostile:
                         cases.append(path_case(fe, li, mount, dl, t.split('/')))
+                        if fe == 'http' and li == 0:
+                            # the same request with an application next to Static that answers whatever Static leaves alone
+                            cases.append(dict(path_case(fe, li, mount, dl, t.split('/')), companion=True))
             for mount in ('/static', '/a/b'):
                 for t in ['../secret.txt', 'f10.txt', '../{sib}/x', '..', '%2e%2e/secret.txt', '../{doc}/f10.txt', '..%2fsecret.txt']:
                     cases.append(path_case(fe, li, mount, True, t.split('/'), glue=True))
@@ -900,6 +922,8 @@ def gen_path(rng):
         case['before'] = gen_before(rng)
     if fe == 'http' and rng.random() < 0.15:
         case['proto'] = '1.0'
+    if fe == 'http' and rng.random() < 0.3:
+        case['companion'] = True
     return case
 
 
